@@ -42,6 +42,9 @@ func (st *State) throw(info *PanicInfo) {
 }
 
 func (st *State) throwRuntime(kind, detail string) {
+	if st.E.Trace {
+		fmt.Printf("    runtime panic %s: %s @%s\n", kind, detail, st.whereAmI())
+	}
 	st.throw(&PanicInfo{Kind: kind, Detail: detail, Runtime: true, Val: st.E.runtimeErrorValue(kind, detail)})
 }
 
@@ -379,6 +382,9 @@ func (st *State) step(fr *frame, ins ssa.Instruction) *ssa.BasicBlock {
 		}
 	case *ssa.Panic:
 		v := st.val(fr, x.X)
+		if st.E.Trace {
+			fmt.Printf("    explicit panic %s @%s\n", st.showDeep(v, 3), st.whereAmI())
+		}
 		st.throw(&PanicInfo{Kind: "explicit", Val: v})
 	case *ssa.Call:
 		fr.env[x] = st.doCall(fr, &x.Call, x)
